@@ -51,6 +51,12 @@ theorem inv4_close {cfg : Cfg} {s s' : State} (h1 : Inv1 cfg s) (hi : Inv4 cfg s
   obtain ⟨j1, j2, j3, j4⟩ := hi
   unfold_step at h <;> (repeat' split at h) <;> cases h <;> close_inv
 
+theorem inv4_bgEnds {cfg : Cfg} {s s' : State} (h1 : Inv1 cfg s) (hi : Inv4 cfg s)
+    (h : step good cfg s (.bgEnds) = some s') : Inv4 cfg s' := by
+  obtain ⟨c1, t1a, t_set, t_ne, t_len, t_armed, t_fired, n1, n2, u0, u3, u1⟩ := h1
+  obtain ⟨j1, j2, j3, j4⟩ := hi
+  unfold_step at h <;> (repeat' split at h) <;> cases h <;> close_inv
+
 theorem inv4_prodCancelled {cfg : Cfg} {s s' : State} (h1 : Inv1 cfg s) (hi : Inv4 cfg s)
     (h : step good cfg s (.prodCancelled) = some s') : Inv4 cfg s' := by
   obtain ⟨c1, t1a, t_set, t_ne, t_len, t_armed, t_fired, n1, n2, u0, u3, u1⟩ := h1
@@ -156,6 +162,7 @@ theorem inv4_step {cfg : Cfg} {s s' : State} {l : Label} (h1 : Inv1 cfg s) (hi :
   | ctxExpire => exact inv4_ctxExpire h1 hi h
   | tick d => exact inv4_tick d h1 hi h
   | close => exact inv4_close h1 hi h
+  | bgEnds => exact inv4_bgEnds h1 hi h
   | prodCancelled => exact inv4_prodCancelled h1 hi h
   | prodSend => exact inv4_prodSend h1 hi h
   | prodSendCancel => exact inv4_prodSendCancel h1 hi h
